@@ -19,6 +19,7 @@ pub enum SDev {
     CommitIdentity(usize),
     CommitAddT8(usize),
     CommitExtra,
+    CommitExtraCopy(usize),
     CommitDrop,
     CommitSwapAdj(usize),
     KConst(usize, usize),
@@ -40,6 +41,7 @@ impl SDev {
             SDev::CommitIdentity(j) => format!("commitment {} <- identity", j),
             SDev::CommitAddT8(j) => format!("commitment {} += T8 (point of order 8)", j),
             SDev::CommitExtra => "extra commitment appended".into(),
+            SDev::CommitExtraCopy(j) => format!("extra commitment appended, equal to commitment {}", j),
             SDev::CommitDrop => "last commitment dropped".into(),
             SDev::CommitSwapAdj(j) => format!("commitments {} and {} swapped", j, j + 1),
             SDev::KConst(k, d) => format!("constraint {} constant += {}", k, DELTA_NAMES[*d]),
@@ -77,6 +79,9 @@ pub fn sdevs_t(p: &Program, ncommit: usize, kterms: &[usize], torsion: bool) -> 
         }
     }
     out.push(SDev::CommitExtra);
+    for j in 0..ncommit {
+        out.push(SDev::CommitExtraCopy(j));
+    }
     if ncommit > 0 {
         out.push(SDev::CommitDrop);
     }
@@ -158,8 +163,13 @@ pub fn run_dev<G: Cv>(env: &Env<G>, b: &BaseRun<G>, d: &SDev, seed: u64) -> Out 
             vprog.p1.push(Op::C);
             comms.push(env.pc.commit(G::ScalarField::from(5u64), G::ScalarField::from(11u64)));
         }
+        SDev::CommitExtraCopy(j) => {
+            vprog.p1.push(Op::C);
+            let c = comms[*j];
+            comms.push(c);
+        }
         SDev::CommitDrop => {
-            let pos = vprog.p1.iter().rposition(|o| *o == Op::C).unwrap();
+            let pos = vprog.p1.iter().rposition(|o| *o == Op::C || *o == Op::CD).unwrap();
             vprog.p1.remove(pos);
             comms.pop();
         }
@@ -212,7 +222,7 @@ pub fn main(o: &Opts) -> i32 {
     if let Some(r) = &replay {
         progs.retain(|p| Some(p.name().as_str()) == r["case"]["program"].as_str());
     }
-    rep.bounds = json!({"bases": desc, "programs": progs.len(), "deviations": "every single verifier-side deviation: each commitment += B, += B_blinding, += a point of order 8 (cofactor-8 curve), negated, <- identity, <- every other commitment, adjacent swap, extra, dropped; each explicit constraint constant += delta (3 deltas), each coefficient += delta (2 deltas); label; each app-data op changed/removed, extra app data at every op position; B_blinding doubled; B doubled"});
+    rep.bounds = json!({"bases": desc, "programs": progs.len(), "deviations": "every single verifier-side deviation: each commitment += B, += B_blinding, += a point of order 8 (cofactor-8 curve), negated, <- identity, <- every other commitment, adjacent swap, extra (fresh, and a copy of each existing one), dropped; each explicit constraint constant += delta (3 deltas), each coefficient += delta (2 deltas); label; each app-data op changed/removed, extra app data at every op position; B_blinding doubled; B doubled"});
     rep.curves = CURVES.iter().map(|s| s.to_string()).collect();
     rep.rule = "for every honest (program, proof) base and every single verifier-side statement/context deviation the real verifier must reject, except the statement's own don't-cares decided by the reference model (changed constraint still satisfied by the witness, equal commitments exchanged, value base changed on a gate-free circuit); non-trivial = deviations that are not don't-cares".into();
     let start = rep.start;
